@@ -128,7 +128,9 @@ func runC02(cfg *vh.Config) error {
 			res.Fail(vh.Failure{Case: i, Stream: stream, Sig: "C02 compiler panic on a valid package", Clause: "valid packages compile", Input: in, Got: fmt.Sprint(got.panic)})
 			continue
 		}
-		if !got.ok {
+		if i < len(corpus) && corpus[i].Outside {
+			res.Count("corpus_outside_language")
+		} else if !got.ok {
 			res.Count("rejected")
 			res.Fail(vh.Failure{Case: i, Stream: stream, Sig: classifyError(got.err), Clause: "every valid j5s package compiles to the declared contract", Input: in, Got: got.err})
 		} else {
@@ -144,10 +146,41 @@ func runC02(cfg *vh.Config) error {
 			res.Sample(in, 3)
 		}
 	}
+	// ---- malformed stream: a valid bundle broken in one place must be rejected, by the compiler
+	// (with an error, not a panic) and by the model
+	nBad := cfg.Scale(60, 600)
+	for i := 0; i < nBad; i++ {
+		r := cfg.R.Fork(fmt.Sprintf("c02-bad-%d", i))
+		gcfg := j5sgen.DefaultConfig()
+		gcfg.MaxFiles, gcfg.MaxPackages, gcfg.AncestorNames = 2, 2, 0
+		g := j5sgen.NewGen(r, gcfg)
+		b, pkg := g.Bundle()
+		what := j5sgen.Malform(r.Fork("break"), b, pkg)
+		if what == "" {
+			continue
+		}
+		texts := b.Texts(r.Fork("print"))
+		got := compileReal(texts, pkg)
+		res.Count("malformed")
+		res.Count("malformed: " + what)
+		in := bundleInput(texts, pkg)
+		in["broken"] = what
+		caseNo := n + len(corpus) + i
+		if got.panic != nil {
+			res.Count("malformed_panic")
+			res.Fail(vh.Failure{Case: caseNo, Stream: "malformed", Sig: "C02 compiler panic on an invalid package: " + what, Clause: "invalid packages are rejected with an error", Input: in, Got: fmt.Sprint(got.panic)})
+			continue
+		}
+		if got.ok {
+			res.Count("malformed_accepted")
+		}
+		cf.Terms = append(cf.Terms, fmt.Sprintf("CCompile\n   %s\n   %s %s\n   %s", b.Coq(), j5sgen.S(pkg), vh.BoolTerm(got.ok), filesCoq(got.files)))
+		res.Cases = append(res.Cases, vh.CaseRec{Case: caseNo, Stream: "malformed: " + what, Input: in, Impl: map[string]any{"ok": got.ok, "err": got.err}})
+	}
 	for k, v := range stats {
 		res.Distribution["gen_"+k] = v
 	}
-	res.Evaluations = n + len(corpus)
+	res.Evaluations = n + len(corpus) + res.Distribution["malformed"]
 	res.Distinct = len(distinct)
 	shards, err := cf.WriteShards(cfg.Out, "cases", perShard)
 	if err != nil {
